@@ -54,6 +54,9 @@ func rexec(p rparams, pats []xfer.NamedTP, ctl *explore.Ctl) explore.Result {
 	defer func() { protocol.VerifReplayCapacity = 0 }()
 	cfg := world.Config{UDP: p.UDP, MTU: 1400, ClientTP: xfer.FindTP(pats, p.TP), ServerTP: xfer.FindTP(pats, p.TP), Seed: p.Seed, Horizon: 400 * time.Second}
 	cfg.RawMux = p.Reload != ""
+	if p.Ds > 0 {
+		cfg.Stalls = []time.Duration{5 * time.Millisecond, 1500 * time.Millisecond}
+	}
 	accepted := 0
 	replays := 0
 	inBounds := 0
